@@ -6,6 +6,7 @@ Contract
                            (n_integration_cores = 1, targets (3, 4), (10, 5), (100, 5) in that order)
 Configurations: n_integration_cores in {2, 3, -1}; the permutations of the three targets; every non-empty proper subset of the targets (targets sharing all, some or no path
 sections with the others).  Quick tier: cores {2, -1}, two permutations, three subsets.  Card: NLO QCD, 5 grid points, initial point (1.65 GeV, nf = 4), one threshold crossing.
+A second card (expanded scale variation, xif = 2) has a target exactly on the bottom matching scale and one beyond it: both orders and each target alone.
 Not covered: other cards; a machine with a different number of CPUs (n_integration_cores = -k depends on it).
 """
 import itertools
@@ -32,11 +33,15 @@ def emit(name, ok, detail="", fn=""):
     OUT.append(dict(name=name, ok=bool(ok), detail=str(detail)[:400], fn=fn))
 
 
-def solve(tag, targets, cores):
+def solve(tag, targets, cores, sv=False):
     th = cards.example.theory()
     th.order = (2, 0)
     op = cards.example.operator()
     op.init = (1.65, 4)
+    if sv:      # expanded scale variation: the same stretch of scales is a different part when it ends a path and when a matching follows it
+        from eko.io.types import ScaleVariationsMethod
+        th.xif = 2.0
+        op.configs.scvar_method = ScaleVariationsMethod.EXPANDED
     op.mugrid = list(targets)
     op.xgrid = interpolation.XGrid([1e-2, 0.1, 0.3, 0.6, 1.0])
     op.configs.interpolation_polynomial_degree = 2
@@ -52,16 +57,17 @@ def solve(tag, targets, cores):
 
 
 REF = {}
+REF_SV = {}
 
 
-@deal.ensure(lambda tag, targets, cores, result: result == [], message="operators depend on the schedule, the order of the targets or the co-computed targets")
-def same_operators(tag, targets, cores):
-    got = solve(tag, targets, cores)
+@deal.ensure(lambda tag, targets, cores, sv=False, result=None: result == [], message="operators depend on the schedule, the order of the targets or the co-computed targets")
+def same_operators(tag, targets, cores, sv=False):
+    got = solve(tag, targets, cores, sv)
     bad = []
     if set(got) != {(float(m), n) for m, n in targets}:
         bad.append(f"targets in the archive {sorted(got)} instead of {sorted(targets)}")
     for ep, (o, e) in got.items():
-        ro, re_ = REF[ep]
+        ro, re_ = (REF_SV if sv else REF)[ep]
         if not np.array_equal(o, ro):
             bad.append(f"operator at {ep} differs from the reference run (max {np.max(np.abs(o - ro)):.2e})")
         if (e is None) != (re_ is None) or (e is not None and not np.array_equal(e, re_)):
@@ -90,6 +96,16 @@ try:
     subsets = [list(s) for r in (1, 2) for s in itertools.combinations(TARGETS, r)]
     for k, sset in enumerate(subsets[::2] if QUICK else subsets):
         attempt(f"C03.bounded.computed_without_the_other_targets[{' '.join(f'({m:g},{n})' for m, n in sset)}]", "eko.runner.managed:solve", same_operators, f"sub{k}", sset, 1)
+    # expanded scale variation with xif = 2, a target exactly on the bottom matching scale (still nf = 4) and one beyond it: the stretch up to the matching scale is needed
+    # both as the end of a path and as a section followed by the matching
+    th0 = cards.example.theory()
+    MB = float(th0.heavy.masses.b.value)
+    SVT = [(MB, 4), (10.0, 5)]
+    REF_SV.update(solve("sv-reference", SVT, 1, True))
+    emit("C03.bounded.scale_variation.reference_run_has_all_targets", set(REF_SV) == {(round(float(m), 9), n) for m, n in SVT}, fn="eko.runner.managed:solve")
+    attempt("C03.bounded.scale_variation.target_order[beyond the matching scale first]", "eko.runner.managed:solve", same_operators, "sv-perm", SVT[::-1], 1, True)
+    attempt("C03.bounded.scale_variation.computed_without_the_other_target[on the matching scale]", "eko.runner.managed:solve", same_operators, "sv-sub0", SVT[:1], 1, True)
+    attempt("C03.bounded.scale_variation.computed_without_the_other_target[beyond the matching scale]", "eko.runner.managed:solve", same_operators, "sv-sub1", SVT[1:], 1, True)
 except Exception as e:
     import traceback
     emit("C03.bounded.no_unexpected_exception", False, f"{type(e).__name__}: {str(e)[:200]} @ {traceback.extract_tb(e.__traceback__)[-1].name}", fn="(input construction)")
